@@ -26,7 +26,7 @@ package raft
 //@ -- the solvers a trigger that matches every access to the array, independent of index arithmetic.
 //@ pred entriesFrom(ents []*pb.Entry, first int) := forall p int :: ents.off <= p && p < ents.off + len(ents) ==> elem(ents, p) != nil && eindex(elem(ents, p)) == first + (p - ents.off)
 //@ pred contiguous(ents []*pb.Entry) := entriesFrom(ents, eindex(ents[0]))
-//@ pred termsMonotone(ents []*pb.Entry) := forall p int, q int :: ents.off <= p && p <= q && q < ents.off + len(ents) ==> eterm(elem(ents, p)) <= eterm(elem(ents, q))
+//@ pred opaque termsMonotone(ents []*pb.Entry) := forall p int, q int :: ents.off <= p && p <= q && q < ents.off + len(ents) ==> eterm(elem(ents, p)) <= eterm(elem(ents, q))
 
 //@ -- ------------------------------------------------------------------------------------------
 //@ -- log_unstable.go
@@ -79,6 +79,7 @@ package raft
 //@        && u.offsetInProgress == old(u.offsetInProgress) && u.snapshot == old(u.snapshot) && u.snapshotInProgress == old(u.snapshotInProgress)
 
 //@ func raft.unstable.stableTo [C18 C03 C05]
+//@   reveal termsMonotone
 //@   requires #wf wf_unstable(u)
 //@   frame raft.unstable: u
 //@   ensures #aba-ignored [C03 C18 C05] !(id.index >= old(u.offset) && id.index < old(u.offset) + old(len(u.entries)) && old(eterm(u.entries[id.index - u.offset])) == id.term)
@@ -99,6 +100,7 @@ package raft
 //@   ensures #wf wf_unstable(u)
 
 //@ func raft.unstable.restore [C18 C09]
+//@   reveal termsMonotone
 //@   requires u != nil && s != nil && snapIndex(s) < 9223372036854775807
 //@   frame raft.unstable: u
 //@   ensures #base [C09 C18] u.offset == old(snapIndex(s)) + 1 && u.offsetInProgress == u.offset && len(u.entries) == 0 && !u.snapshotInProgress
@@ -117,6 +119,7 @@ package raft
 //@   ensures #window [C18] result.arr == u.entries.arr && result.off == u.entries.off + (lo - u.offset) && len(result) == hi - lo && cap(result) == hi - lo
 
 //@ func raft.unstable.truncateAndAppend [C18 C03 C01]
+//@   reveal termsMonotone
 //@   requires #wf wf_unstable(u)
 //@   requires #ents len(ents) > 0 && contiguous(ents) && termsMonotone(ents) && eindex(ents[0]) + len(ents) < 9223372036854775808
 //@   requires #no-gap [C14] eindex(ents[0]) <= u.offset + len(u.entries)
@@ -214,3 +217,371 @@ package raft
 //@        && q == old(ms.ents.off) + (p - ms.ents.off) + (compactIndex - old(ms_off(ms))) ==> elem(ms.ents, p) == old(elem(ms.ents, q))
 //@   ensures #no-overwrite [C18] forall p int :: old(ms.ents.off) <= p && p < old(ms.ents.off) + old(len(ms.ents)) ==> elem(old(ms.ents), p) == old(elem(ms.ents, p))
 //@   ensures #wf wf_ms(ms)
+
+//@ -- ------------------------------------------------------------------------------------------
+//@ -- util.go / types.go helpers
+
+//@ -- sums of proto.Size over array windows: sumarr(a, o, k) = psize(a[o]) + ... + psize(a[o+k-1]) (recursive definition
+//@ -- in the engine); the lemmas below are proved by induction by the engine itself.
+//@ lemma sum_split(a arr, o int, j int, k int) [C16 C18 C08]
+//@   requires 0 <= j && j <= k
+//@   ensures sumarr(a, o, k) == sumarr(a, o, j) + sumarr(a, o + j, k - j)
+//@   decreases k - j
+//@   use j < k ==> sum_split(a, o, j, k - 1)
+
+//@ lemma sum_cong(a arr, ao int, b arr, bo int, k int) [C16 C18 C08]
+//@   requires forall t int :: 0 <= t && t < k ==> a[ao + t] == b[bo + t]
+//@   ensures sumarr(a, ao, k) == sumarr(b, bo, k)
+//@   decreases k
+//@   use k > 0 ==> sum_cong(a, ao, b, bo, k - 1)
+
+//@ lemma sum_range(a arr, o int, k int) [C16 C18 C08]
+//@   requires 0 <= k
+//@   ensures 0 <= sumarr(a, o, k) && sumarr(a, o, k) <= k * 2147483648
+//@   decreases k
+//@   use k > 0 ==> sum_range(a, o, k - 1)
+
+//@ func raft.entsSize [C16]
+//@   pure
+//@   ensures #sum result == sumsize(ents, len(ents))
+//@   loop 1 invariant #acc 0 <= iter && iter <= len(ents) && size == sumsize(ents, iter)
+
+//@ func raft.extend [C18 C16]
+//@   use sum_cong(arrof(result), result.off, old(arrof(dst)), dst.off, len(dst))
+//@   use sum_cong(arrof(result), result.off + len(dst), old(arrof(vals)), vals.off, len(vals))
+//@   use sum_split(arrof(result), result.off, len(dst), len(result))
+//@   ensures #sum [C16] sumsize(result, len(result)) == old(sumsize(dst, len(dst))) + old(sumsize(vals, len(vals)))
+//@   ensures #concat [C18] len(result) == len(dst) + len(vals)
+//@        && (forall p int, q int :: result.off <= p && p < result.off + len(dst) && q == dst.off + (p - result.off) ==> elem(result, p) == old(elem(dst, q)))
+//@        && (forall p int, q int :: result.off + len(dst) <= p && p < result.off + len(result) && q == vals.off + (p - result.off - len(dst)) ==> elem(result, p) == old(elem(vals, q)))
+//@   frame elems *raftpb.Entry: dst
+//@   ensures #no-overwrite [C18] forall p int :: !(dst.off + len(dst) <= p && p < dst.off + cap(dst)) ==> elem(dst, p) == old(elem(dst, p))
+
+//@ -- ------------------------------------------------------------------------------------------
+//@ -- Storage interface: abstract storage model (DESIGN §3.1). Within one call into raft the storage does not change.
+//@ -- E-storage-iface: an arbitrary Storage is assumed to satisfy these contracts; MemoryStorage is proved against the
+//@ -- same statements over its representation (see above).
+
+//@ ufun st_first(s Storage) uint64
+//@ ufun st_last(s Storage) uint64
+//@ ufun st_term(s Storage, i uint64) uint64
+//@ ufun st_ent(s Storage, i uint64) *pb.Entry
+//@ pred wf_storage(s Storage) := !isnil(s) && st_first(s) >= 1 && st_last(s) + 1 >= st_first(s) && st_last(s) < 4611686018427387904
+//@     && (forall i uint64 :: st_first(s) <= i && i <= st_last(s) ==> allocated(st_ent(s, i)) && eindex(st_ent(s, i)) == i && eterm(st_ent(s, i)) == st_term(s, i))
+//@     && (forall i uint64, j uint64 :: st_first(s) - 1 <= i && i <= j && j <= st_last(s) ==> st_term(s, i) <= st_term(s, j))
+
+//@ func raft.Storage.FirstIndex
+//@   pure
+//@   ensures result0 == st_first(self) && result1 == nil
+
+//@ func raft.Storage.LastIndex
+//@   pure
+//@   ensures result0 == st_last(self) && result1 == nil
+
+//@ func raft.Storage.Term
+//@   pure
+//@   ensures (i + 1 < st_first(self) ==> result0 == 0 && result1 == ErrCompacted)
+//@        && (i > st_last(self) ==> result0 == 0 && result1 == ErrUnavailable)
+//@        && (st_first(self) <= i + 1 && i <= st_last(self) ==> result0 == st_term(self, i) && result1 == nil)
+
+//@ func raft.Storage.Entries
+//@   requires #range lo < hi && hi <= st_last(self) + 1
+//@   modifies alloc E$*raftpb.Entry
+//@   ensures lo < st_first(self) ==> isnil(result0) && result1 == ErrCompacted
+//@   ensures lo >= st_first(self) ==> result1 == nil && len(result0) >= 1 && len(result0) <= hi - lo && cap(result0) == len(result0)
+//@        && (forall p int :: result0.off <= p && p < result0.off + len(result0) ==> elem(result0, p) == st_ent(self, lo + (p - result0.off)))
+//@        && (len(result0) <= 1 || sumsize(result0, len(result0)) <= maxSize)
+//@        && (len(result0) == hi - lo || sumsize(result0, len(result0)) + psize(st_ent(self, lo + len(result0))) > maxSize)
+
+//@ func raft.Storage.Snapshot
+//@   modifies alloc F$raftpb.Snapshot, alloc F$raftpb.SnapshotMetadata, alloc F$raftpb.ConfState, alloc C$uint64, alloc C$bool, alloc E$uint8, alloc E$uint64
+//@   ensures result1 == nil ==> result0 != nil
+
+//@ -- ------------------------------------------------------------------------------------------
+//@ -- log.go: the combined stable+unstable view of a raftLog (DESIGN §3.1).
+//@ --   first = pending snapshot index + 1, else storage first;  last = last unstable entry, else pending snapshot index, else storage last
+//@ --   term(i): unstable entry if i >= offset; pending snapshot term at its index; storage term otherwise (on [first-1, last])
+
+//@ spec log_first(l *raftLog) uint64 := l.unstable.snapshot != nil ? snapIndex(l.unstable.snapshot) + 1 : st_first(l.storage)
+//@ spec log_last(l *raftLog) uint64 := len(l.unstable.entries) != 0 ? l.unstable.offset + len(l.unstable.entries) - 1
+//@     : (l.unstable.snapshot != nil ? snapIndex(l.unstable.snapshot) : st_last(l.storage))
+//@ spec opaque log_term(l *raftLog, i int) uint64 := i >= l.unstable.offset ? eterm(l.unstable.entries[i - l.unstable.offset])
+//@     : ((l.unstable.snapshot != nil && snapIndex(l.unstable.snapshot) == i) ? snapTerm(l.unstable.snapshot) : st_term(l.storage, i))
+//@ spec log_ent(l *raftLog, i int) *pb.Entry := i >= l.unstable.offset ? l.unstable.entries[i - l.unstable.offset] : st_ent(l.storage, i)
+//@ pred log_has(l *raftLog, i int) := log_first(l) <= i + 1 && i <= log_last(l)
+
+//@ pred wf_raftLog(l *raftLog) := l != nil && wf_unstable(&l.unstable) && wf_storage(l.storage)
+//@     && l.applied <= l.applying && l.applying <= l.committed && l.committed <= log_last(l)
+//@     && (l.unstable.snapshot == nil ==> st_first(l.storage) <= l.unstable.offset && l.unstable.offset <= st_last(l.storage) + 1 && st_first(l.storage) <= l.applied + 1)
+//@     && (l.unstable.snapshot == nil && len(l.unstable.entries) == 0 ==> l.unstable.offset == st_last(l.storage) + 1)
+//@     && (l.unstable.snapshot != nil ==> l.unstable.offset == snapIndex(l.unstable.snapshot) + 1 && snapIndex(l.unstable.snapshot) <= l.committed)
+//@     && (len(l.unstable.entries) > 0 && l.unstable.snapshot == nil ==> st_term(l.storage, l.unstable.offset - 1) <= eterm(l.unstable.entries[0]))
+//@     && (len(l.unstable.entries) > 0 && l.unstable.snapshot != nil ==> snapTerm(l.unstable.snapshot) <= eterm(l.unstable.entries[0]))
+
+//@ pred log_cursors_kept(l *raftLog) := l.committed == old(l.committed) && l.applying == old(l.applying) && l.applied == old(l.applied)
+//@     && l.applyingEntsSize == old(l.applyingEntsSize) && l.applyingEntsPaused == old(l.applyingEntsPaused) && l.maxApplyingEntsSize == old(l.maxApplyingEntsSize)
+
+//@ func raft.raftLog.firstIndex [C18]
+//@   pure
+//@   requires wf_raftLog(l)
+//@   ensures #view [C18] result == log_first(l)
+
+//@ func raft.raftLog.lastIndex [C18]
+//@   pure
+//@   requires wf_raftLog(l)
+//@   ensures #view [C18] result == log_last(l)
+
+//@ func raft.raftLog.term [C18 C03]
+//@   reveal log_term
+//@   pure
+//@   requires wf_raftLog(l)
+//@   ensures #compacted [C18] i + 1 < log_first(l) ==> result0 == 0 && result1 == ErrCompacted
+//@   -- F-3 (DESIGN §10): for i == MaxUint64 the test i+1 < firstIndex wraps and ErrCompacted is returned; no caller distinguishes the two errors
+//@   ensures #unavailable [C18] i > log_last(l) && i < 18446744073709551615 ==> result0 == 0 && result1 == ErrUnavailable
+//@   ensures #out-of-range [C18] i > log_last(l) ==> result0 == 0 && result1 != nil
+//@   ensures #term [C18 C03] log_has(l, i) ==> result1 == nil && result0 == log_term(l, i)
+
+//@ func raft.raftLog.zeroTermOnOutOfBounds [C14]
+//@   pure
+//@   requires err == nil || err == ErrCompacted || err == ErrUnavailable
+//@   ensures result == (err == nil ? t : 0)
+
+//@ func raft.raftLog.matchTerm [C03 C18]
+//@   pure
+//@   requires wf_raftLog(l)
+//@   ensures #def [C03] result <==> (log_has(l, id.index) && log_term(l, id.index) == id.term)
+
+//@ func raft.raftLog.lastEntryID [C18 C02]
+//@   pure
+//@   requires wf_raftLog(l)
+//@   ensures #view result.index == log_last(l) && result.term == log_term(l, log_last(l))
+
+//@ func raft.raftLog.isUpToDate [C02 C04]
+//@   pure
+//@   requires wf_raftLog(l)
+//@   ensures #lexicographic [C02 C04] result <==> (their.term > log_term(l, log_last(l)) || (their.term == log_term(l, log_last(l)) && their.index >= log_last(l)))
+
+//@ func raft.raftLog.commitTo [C06 C07 C14]
+//@   requires wf_raftLog(l)
+//@   requires #in-range [C14 C06] tocommit <= log_last(l)
+//@   frame raft.raftLog: l
+//@   ensures #max [C06 C07] l.committed == max(old(l.committed), tocommit)
+//@   ensures #rest l.applying == old(l.applying) && l.applied == old(l.applied) && l.applyingEntsSize == old(l.applyingEntsSize)
+//@        && l.applyingEntsPaused == old(l.applyingEntsPaused) && l.maxApplyingEntsSize == old(l.maxApplyingEntsSize) && l.storage == old(l.storage)
+//@   ensures #wf wf_raftLog(l)
+
+//@ func raft.raftLog.maybeCommit [C04 C06 C07]
+//@   requires wf_raftLog(l)
+//@   frame raft.raftLog: l
+//@   ensures #own-term [C04 C06] result <==> (at.term != 0 && at.index > old(l.committed) && log_has(l, at.index) && log_term(l, at.index) == at.term)
+//@   ensures #commit [C06 C07] l.committed == (result ? at.index : old(l.committed)) && l.committed >= old(l.committed)
+//@   ensures #rest l.applying == old(l.applying) && l.applied == old(l.applied) && l.applyingEntsSize == old(l.applyingEntsSize)
+//@        && l.applyingEntsPaused == old(l.applyingEntsPaused) && l.maxApplyingEntsSize == old(l.maxApplyingEntsSize) && l.storage == old(l.storage)
+//@   ensures #wf wf_raftLog(l)
+
+//@ func raft.raftLog.maxAppliableIndex [C08]
+//@   pure
+//@   requires wf_raftLog(l)
+//@   ensures #def [C08] result == (allowUnstable ? l.committed : min(l.committed, l.unstable.offset - 1))
+
+//@ func raft.raftLog.hasNextOrInProgressSnapshot [C08]
+//@   pure
+//@   requires l != nil
+//@   ensures result <==> l.unstable.snapshot != nil
+
+//@ func raft.raftLog.hasNextCommittedEnts [C08]
+//@   pure
+//@   requires wf_raftLog(l)
+//@   ensures #agrees [C08] result <==> (!l.applyingEntsPaused && l.unstable.snapshot == nil
+//@        && l.applying < (allowUnstable ? l.committed : min(l.committed, l.unstable.offset - 1)))
+
+//@ func raft.raftLog.appliedTo [C08 C07 C14]
+//@   requires wf_raftLog(l)
+//@   requires #range [C14 C08] l.applied <= i && i <= l.committed
+//@   frame raft.raftLog: l
+//@   ensures #cursor [C08] l.applied == i && l.applying == max(old(l.applying), i) && l.committed == old(l.committed)
+//@   ensures #size [C08] l.applyingEntsSize == (old(l.applyingEntsSize) > size ? old(l.applyingEntsSize) - size : 0)
+//@        && (l.applyingEntsPaused <==> l.applyingEntsSize >= l.maxApplyingEntsSize) && l.maxApplyingEntsSize == old(l.maxApplyingEntsSize) && l.storage == old(l.storage)
+//@   ensures #wf wf_raftLog(l)
+
+//@ func raft.raftLog.acceptApplying [C08 C14]
+//@   requires wf_raftLog(l)
+//@   requires #range [C14 C08] l.applying <= i && i <= l.committed && l.applyingEntsSize + size < 18446744073709551616
+//@   frame raft.raftLog: l
+//@   ensures #cursor [C08] l.applying == i && l.applied == old(l.applied) && l.committed == old(l.committed)
+//@   ensures #size [C08] l.applyingEntsSize == old(l.applyingEntsSize) + size && l.maxApplyingEntsSize == old(l.maxApplyingEntsSize) && l.storage == old(l.storage)
+//@        && (l.applyingEntsPaused <==> (l.applyingEntsSize >= l.maxApplyingEntsSize || i < (allowUnstable ? l.committed : min(l.committed, l.unstable.offset - 1))))
+//@   ensures #wf wf_raftLog(l)
+
+//@ func raft.raftLog.mustCheckOutOfBounds [C18 C14]
+//@   pure
+//@   requires wf_raftLog(l)
+//@   requires #bounds [C14] lo <= hi && hi <= log_last(l) + 1
+//@   ensures #compacted [C18] (lo < log_first(l) ==> result == ErrCompacted) && (lo >= log_first(l) ==> result == nil)
+
+//@ func raft.raftLog.slice [C18 C16 C08 C14]
+//@   reveal termsMonotone
+//@   requires wf_raftLog(l)
+//@   requires #bounds [C14] lo <= hi && hi <= log_last(l) + 1
+//@   ensures #compacted [C18] lo < log_first(l) ==> isnil(result0) && result1 == ErrCompacted
+//@   ensures #empty [C18] lo >= log_first(l) && lo == hi ==> isnil(result0) && result1 == nil
+//@   ensures #run [C18 C08] lo >= log_first(l) && lo < hi ==> result1 == nil && len(result0) >= 1 && len(result0) <= hi - lo
+//@   ensures #run-stable [C18 C08] lo >= log_first(l) && lo < hi ==> (forall p int, i int :: result0.off <= p && p < result0.off + len(result0) && i == lo + (p - result0.off) && i < l.unstable.offset
+//@        ==> elem(result0, p) == st_ent(l.storage, i))
+//@   ensures #run-unstable [C18 C08] lo >= log_first(l) && lo < hi ==> (forall p int, i int, q int :: result0.off <= p && p < result0.off + len(result0) && i == lo + (p - result0.off) && i >= l.unstable.offset
+//@        && q == l.unstable.entries.off + (i - l.unstable.offset) ==> elem(result0, p) == old(elem(l.unstable.entries, q)))
+//@   ensures #budget [C16 C18] lo >= log_first(l) && lo < hi ==> (len(result0) <= 1 || sumsize(result0, len(result0)) <= maxSize)
+//@   ensures #no-overwrite [C18] forall p int :: l.unstable.entries.off <= p && p < l.unstable.entries.off + len(l.unstable.entries) ==> elem(l.unstable.entries, p) == old(elem(l.unstable.entries, p))
+//@   ensures #wf wf_raftLog(l)
+
+//@ func raft.raftLog.entries [C18 C16]
+//@   requires wf_raftLog(l)
+//@   ensures #past-end i > log_last(l) ==> isnil(result0) && result1 == nil
+//@   ensures #compacted i <= log_last(l) && i < log_first(l) ==> isnil(result0) && result1 == ErrCompacted
+//@   ensures #run [C18 C16] i <= log_last(l) && i >= log_first(l) ==> result1 == nil && len(result0) >= 1 && len(result0) <= log_last(l) + 1 - i
+//@        && (len(result0) <= 1 || sumsize(result0, len(result0)) <= maxSize)
+//@   ensures #run-stable [C18] i <= log_last(l) && i >= log_first(l) ==> (forall p int, j int :: result0.off <= p && p < result0.off + len(result0) && j == i + (p - result0.off) && j < l.unstable.offset
+//@        ==> elem(result0, p) == st_ent(l.storage, j))
+//@   ensures #run-unstable [C18] i <= log_last(l) && i >= log_first(l) ==> (forall p int, j int, q int :: result0.off <= p && p < result0.off + len(result0) && j == i + (p - result0.off) && j >= l.unstable.offset
+//@        && q == l.unstable.entries.off + (j - l.unstable.offset) ==> elem(result0, p) == old(elem(l.unstable.entries, q)))
+//@   ensures #wf wf_raftLog(l)
+
+//@ func raft.raftLog.findConflict [C03 C01]
+//@   pure
+//@   requires wf_raftLog(l)
+//@   requires #ents forall p int :: ents.off <= p && p < ents.off + len(ents) ==> elem(ents, p) != nil && eindex(elem(ents, p)) >= 1
+//@   requires #contiguous len(ents) > 0 ==> contiguous(ents)
+//@   ensures #prev-matched [C03] result != 0 && result > eindex(ents[0]) ==> result <= eindex(ents[0]) + len(ents) - 1
+//@        && matchesAt(l, result - 1, eterm(elem(ents, ents.off + (result - 1 - eindex(ents[0])))))
+//@   ensures #first-or-later result != 0 ==> result >= eindex(ents[0])
+//@   ensures #none [C03] result == 0 ==> (forall p int :: ents.off <= p && p < ents.off + len(ents) ==>
+//@             log_has(l, eindex(elem(ents, p))) && log_term(l, eindex(elem(ents, p))) == eterm(elem(ents, p)))
+//@   ensures #first-mismatch [C03 C01] result != 0 ==> (exists p int :: ents.off <= p && p < ents.off + len(ents) && result == eindex(elem(ents, p))
+//@             && !(log_has(l, result) && log_term(l, result) == eterm(elem(ents, p)))
+//@             && (forall q int :: ents.off <= q && q < p ==> log_has(l, eindex(elem(ents, q))) && log_term(l, eindex(elem(ents, q))) == eterm(elem(ents, q))))
+//@   loop 1 invariant #matched 0 <= iter && iter <= len(ents) && (forall q int :: ents.off <= q && q < ents.off + iter ==>
+//@             log_has(l, eindex(elem(ents, q))) && log_term(l, eindex(elem(ents, q))) == eterm(elem(ents, q)))
+
+//@ func raft.raftLog.append [C03 C01 C14]
+//@   reveal log_term
+//@   requires wf_raftLog(l)
+//@   requires #ents len(ents) > 0 ==> contiguous(ents) && termsMonotone(ents) && eindex(ents[0]) + len(ents) < 9223372036854775808 && eindex(ents[0]) >= 1
+//@   requires #above-commit [C01 C14] len(ents) > 0 ==> eindex(ents[0]) - 1 >= l.committed
+//@   requires #no-gap [C14] len(ents) > 0 ==> eindex(ents[0]) <= log_last(l) + 1
+//@   requires #seam len(ents) > 0 ==> log_term(l, eindex(ents[0]) - 1) <= eterm(ents[0])
+//@   frame raft.raftLog: l
+//@   frame raft.unstable: &l.unstable
+//@   ensures #last [C03] result == log_last(l) && (len(ents) > 0 ==> log_last(l) == old(eindex(ents[0])) + len(ents) - 1) && (len(ents) == 0 ==> log_last(l) == old(log_last(l)))
+//@   ensures #prefix-stable [C01 C03] forall i int :: i < (len(ents) > 0 ? old(eindex(ents[0])) : old(log_last(l)) + 1) && old(log_has(l, i)) ==> log_has(l, i) && log_term(l, i) == old(log_term(l, i))
+//@   ensures #appended [C03] forall p int, i int :: ents.off <= p && p < ents.off + len(ents) && i == old(eindex(ents[0])) + (p - ents.off) ==> log_has(l, i) && log_term(l, i) == old(eterm(elem(ents, p)))
+//@   ensures #cursors log_cursors_kept(l) && l.storage == old(l.storage)
+//@   ensures #wf wf_raftLog(l)
+
+//@ -- a logSlice as received in a MsgApp (E-msg-wf, DESIGN §3.4): contiguous from prev.index+1, terms non-decreasing from prev.term
+//@ pred validSlice(a logSlice) := entriesFrom(a.entries, a.prev.index + 1) && termsMonotone(a.entries)
+//@     && (len(a.entries) > 0 ==> a.prev.term <= eterm(a.entries[0])) && a.prev.index + len(a.entries) < 4611686018427387904
+//@ pred matchesAt(l *raftLog, i int, t int) := log_has(l, i) && log_term(l, i) == t
+
+//@ func raft.raftLog.maybeAppend [C03 C01 C06 C14]
+//@   reveal termsMonotone
+//@   requires wf_raftLog(l)
+//@   requires #valid validSlice(a)
+//@   -- E-leader-complete (DESIGN §3.4): an append stepped at the current term never conflicts with the committed prefix
+//@   requires #no-committed-conflict [C14] matchesAt(l, a.prev.index, a.prev.term) ==> (forall p int :: a.entries.off <= p && p < a.entries.off + len(a.entries)
+//@        && eindex(elem(a.entries, p)) <= l.committed ==> matchesAt(l, eindex(elem(a.entries, p)), eterm(elem(a.entries, p))))
+//@   frame raft.raftLog: l
+//@   frame raft.unstable: &l.unstable
+//@   after raft.raftLog.findConflict assert #ci-position result != 0 ==> result > a.prev.index && result <= a.prev.index + len(a.entries)
+//@        && eindex(elem(a.entries, a.entries.off + (result - a.prev.index - 1))) == result
+//@   after raft.raftLog.findConflict assert #ci-none result == 0 ==> a.prev.index + len(a.entries) <= log_last(l)
+//@   after raft.raftLog.findConflict assert #ci-prev result != 0 ==> log_has(l, result - 1) && log_term(l, result - 1) <= eterm(elem(a.entries, a.entries.off + (result - a.prev.index - 1)))
+//@   after raft.raftLog.append assert #appended-last result == a.prev.index + len(a.entries)
+//@   ensures #reject [C03] !old(matchesAt(l, a.prev.index, a.prev.term)) ==> !ok && lastnewi == 0 && log_cursors_kept(l)
+//@        && l.unstable.entries == old(l.unstable.entries) && l.unstable.offset == old(l.unstable.offset) && l.unstable.offsetInProgress == old(l.unstable.offsetInProgress)
+//@   ensures #accept [C03] old(matchesAt(l, a.prev.index, a.prev.term)) ==> ok && lastnewi == a.prev.index + len(a.entries)
+//@   ensures #commit-clamp [C06 C07] ok ==> l.committed == max(old(l.committed), min(committed, lastnewi))
+//@   ensures #commit-monotone [C07 C06] l.committed >= old(l.committed) && l.committed <= log_last(l)
+//@   ensures #matches-leader [C03] ok ==> (forall p int, i int :: a.entries.off <= p && p < a.entries.off + len(a.entries) && i == a.prev.index + 1 + (p - a.entries.off)
+//@        ==> log_has(l, i) && log_term(l, i) == old(eterm(elem(a.entries, p))))
+//@   ensures #committed-prefix-stable [C01 C03] forall i int :: i <= old(l.committed) && old(log_has(l, i)) ==> log_has(l, i) && log_term(l, i) == old(log_term(l, i))
+//@   ensures #rest l.applying == old(l.applying) && l.applied == old(l.applied) && l.storage == old(l.storage) && l.unstable.snapshot == old(l.unstable.snapshot)
+//@   ensures #wf wf_raftLog(l)
+
+//@ func raft.raftLog.findConflictByTerm [C03]
+//@   pure
+//@   requires wf_raftLog(l)
+//@   ensures #bound result0 <= index
+//@   ensures #term-known result1 != 0 ==> log_has(l, result0) && result1 == log_term(l, result0) && result1 <= term
+//@   loop 1 invariant #down index <= entry(index)
+//@   loop 1 decreases index
+
+//@ func raft.raftLog.nextUnstableEnts [C05 C18]
+//@   pure
+//@   requires wf_raftLog(l)
+//@   ensures #suffix (l.unstable.offsetInProgress == l.unstable.offset + len(l.unstable.entries) ==> isnil(result))
+//@        && (l.unstable.offsetInProgress < l.unstable.offset + len(l.unstable.entries) ==> result.arr == l.unstable.entries.arr
+//@              && result.off == l.unstable.entries.off + (l.unstable.offsetInProgress - l.unstable.offset)
+//@              && len(result) == len(l.unstable.entries) - (l.unstable.offsetInProgress - l.unstable.offset))
+
+//@ func raft.raftLog.hasNextUnstableEnts [C05]
+//@   pure
+//@   requires wf_raftLog(l)
+//@   ensures result <==> l.unstable.offsetInProgress < l.unstable.offset + len(l.unstable.entries)
+
+//@ func raft.raftLog.hasNextOrInProgressUnstableEnts [C05]
+//@   pure
+//@   requires l != nil
+//@   ensures result <==> len(l.unstable.entries) > 0
+
+//@ func raft.raftLog.nextCommittedEnts [C08 C01 C14]
+//@   requires wf_raftLog(l)
+//@   requires #size-accounting [C14] l.applyingEntsPaused || l.applyingEntsSize < l.maxApplyingEntsSize
+//@   ensures #blocked [C08] (l.applyingEntsPaused || l.unstable.snapshot != nil
+//@        || l.applying >= (allowUnstable ? l.committed : min(l.committed, l.unstable.offset - 1))) ==> isnil(ents)
+//@   ensures #batch [C08 C01] !(l.applyingEntsPaused || l.unstable.snapshot != nil
+//@        || l.applying >= (allowUnstable ? l.committed : min(l.committed, l.unstable.offset - 1)))
+//@        ==> len(ents) >= 1 && l.applying + len(ents) <= (allowUnstable ? l.committed : min(l.committed, l.unstable.offset - 1))
+//@   ensures #from-view-stable [C08 C01] forall p int, i int :: ents.off <= p && p < ents.off + len(ents) && i == l.applying + 1 + (p - ents.off) && i < l.unstable.offset
+//@        ==> elem(ents, p) == st_ent(l.storage, i)
+//@   ensures #from-view-unstable [C08 C01] forall p int, i int, q int :: ents.off <= p && p < ents.off + len(ents) && i == l.applying + 1 + (p - ents.off) && i >= l.unstable.offset
+//@        && q == l.unstable.entries.off + (i - l.unstable.offset) ==> elem(ents, p) == old(elem(l.unstable.entries, q))
+//@   ensures #budget [C08 C16] len(ents) <= 1 || sumsize(ents, len(ents)) <= l.maxApplyingEntsSize - l.applyingEntsSize
+//@   ensures #unchanged log_cursors_kept(l) && l.unstable.entries == old(l.unstable.entries) && l.unstable.offset == old(l.unstable.offset)
+//@   ensures #wf wf_raftLog(l)
+
+//@ func raft.raftLog.stableTo [C05 C18]
+//@   reveal termsMonotone
+//@   requires wf_raftLog(l)
+//@   -- E-ready-contract: an acknowledgement that matches the unstable log is only delivered after those entries reached storage
+//@   requires #persisted (id.index >= l.unstable.offset && id.index < l.unstable.offset + len(l.unstable.entries)
+//@        && eterm(l.unstable.entries[id.index - l.unstable.offset]) == id.term && l.unstable.snapshot == nil) ==>
+//@        (st_last(l.storage) >= id.index && (id.index + 1 == l.unstable.offset + len(l.unstable.entries) ==> st_last(l.storage) == id.index)
+//@         && st_term(l.storage, id.index) == id.term)
+//@   requires #snapshot-first l.unstable.snapshot != nil ==> id.index < l.unstable.offset || !(id.index < l.unstable.offset + len(l.unstable.entries) && eterm(l.unstable.entries[id.index - l.unstable.offset]) == id.term)
+//@   frame raft.raftLog: l
+//@   frame raft.unstable: &l.unstable
+//@   ensures #cursors log_cursors_kept(l) && l.storage == old(l.storage)
+//@   ensures #wf wf_raftLog(l)
+
+//@ func raft.raftLog.acceptUnstable [C05]
+//@   requires wf_raftLog(l)
+//@   frame raft.raftLog: l
+//@   frame raft.unstable: &l.unstable
+//@   ensures #in-progress (len(l.unstable.entries) > 0 ==> l.unstable.offsetInProgress == l.unstable.offset + len(l.unstable.entries))
+//@        && (l.unstable.snapshot != nil ==> l.unstable.snapshotInProgress)
+//@   ensures #kept l.unstable.entries == old(l.unstable.entries) && l.unstable.offset == old(l.unstable.offset) && l.unstable.snapshot == old(l.unstable.snapshot)
+//@        && log_cursors_kept(l) && l.storage == old(l.storage)
+//@   ensures #wf wf_raftLog(l)
+
+//@ func raft.raftLog.restore [C09 C07 C18]
+//@   reveal log_term
+//@   requires wf_raftLog(l) && s != nil
+//@   requires #above-commit [C09 C07] snapIndex(s) > l.committed && snapIndex(s) < 4611686018427387904
+//@   frame raft.raftLog: l
+//@   frame raft.unstable: &l.unstable
+//@   ensures #installed [C09] l.committed == old(snapIndex(s)) && log_first(l) == old(snapIndex(s)) + 1 && log_last(l) == old(snapIndex(s))
+//@        && len(l.unstable.entries) == 0 && l.unstable.snapshot != nil && snapIndex(l.unstable.snapshot) == old(snapIndex(s)) && snapTerm(l.unstable.snapshot) == old(snapTerm(s))
+//@        && !l.unstable.snapshotInProgress
+//@   ensures #cursors-kept [C08 C09] l.applying == old(l.applying) && l.applied == old(l.applied) && l.storage == old(l.storage)
+//@   ensures #commit-monotone [C07] l.committed > old(l.committed)
+//@   ensures #wf wf_raftLog(l)
